@@ -80,7 +80,7 @@ func c26DrawCfg(rt *rapid.T) c26Cfg {
 	p.rscal = rapid.Bool().Draw(rt, "rscal")
 	p.rd = pick(rt, "rewardDelegators", 30, 70) == 1
 	p.perChain = pick(rt, "perChain", 60, 40) == 1
-	switch pick(rt, "allocClass", 30, 8, 6, 6, 50) {
+	switch pick(rt, "allocClass", 30, 4, 6, 6, 54) {
 	case 0:
 		p.dao, p.prop = 10, 1
 	case 1:
@@ -187,13 +187,13 @@ func c26DrawCfg(rt *rapid.T) c26Cfg {
 }
 
 func c26DrawAmount(rt *rapid.T, label string) int64 {
-	switch pick(rt, label+"Class", 30, 30, 25, 15) {
+	switch pick(rt, label+"Class", 12, 23, 45, 20) {
 	case 0:
 		return rapid.Int64Range(1, 100).Draw(rt, label)
 	case 1:
 		return rapid.Int64Range(1, 100_000).Draw(rt, label)
 	case 2:
-		return rapid.Int64Range(1, 1_000_000_000).Draw(rt, label)
+		return rapid.Int64Range(1000, 1_000_000_000).Draw(rt, label)
 	default:
 		// values around multiples of 100 and 10^k where percent products are integral / almost integral
 		base := rapid.SampledFrom([]int64{100, 1000, 10_000, 1_000_000, 100_000_000}).Draw(rt, label+"Base")
@@ -365,8 +365,8 @@ func TestC26(t *testing.T) {
 			"allocation split (fees of a reward, DAO cut of a block reward) that truncates",
 		map[string]float64{"delegators>=2": 0.25, "share-total=100": 0.08, "case-variant-duplicate": 0.04, "delegator=output": 0.02,
 			"delegator=operator": 0.03, "node-part-below-reward-cost": 0.03, "block-reward-paid": 0.4, "block-reward-with-delegators": 0.1,
-			"alloc-0/0": 0.03, "rscal-on": 0.3, "rscal-off": 0.3, "reward-delegators-off": 0.15, "ncust-off": 0.08, "per-chain-multiplier-used": 0.1,
-			"fees-truncated": 0.3, "delegator-share-truncated": 0.25},
+			"alloc-0/0": 0.02, "rscal-on": 0.3, "rscal-off": 0.3, "reward-delegators-off": 0.15, "ncust-off": 0.08, "per-chain-multiplier-used": 0.1,
+			"fees-truncated": 0.3, "delegator-share-truncated": 0.15},
 		func(rt *rapid.T, c *harness.Case) {
 			p := c26DrawCfg(rt)
 			c26Case(rt, c, p)
@@ -563,7 +563,7 @@ func c26Case(rt *rapid.T, c *harness.Case, p c26Cfg) {
 			c.Violation("C26/reward/fee-part-differs-from-allocation", "%s: reward %s split into node %s + fees %s, expected fees floor(%s x %d/100) = %s",
 				what, total, node, fee, total, p.dao+p.prop, wantFee)
 		}
-		if new(big.Int).Mul(total, b64(p.dao+p.prop)).Int64()%100 != 0 || !new(big.Int).Mul(total, b64(p.dao+p.prop)).IsInt64() && new(big.Int).Mod(new(big.Int).Mul(total, b64(p.dao+p.prop)), b64(100)).Sign() != 0 {
+		if new(big.Int).Mod(new(big.Int).Mul(total, b64(p.dao+p.prop)), b64(100)).Sign() != 0 {
 			c.Label("fees-truncated")
 			c.NonTrivial()
 		}
@@ -673,15 +673,20 @@ func c26Case(rt *rapid.T, c *harness.Case, p c26Cfg) {
 	exp := map[string]*big.Int{}
 	if fees.Sign() > 0 {
 		daoCut := new(big.Int).Sub(after.get(r.dao), before.get(r.dao))
-		ideal := floorMulDiv(fees, p.dao, p.dao+p.prop)
-		lo := new(big.Int).Sub(ideal, b64(1))
-		// the implementation rounds dao/(dao+proposer) to 18 decimals first: the cut may be one below the exact floor
-		if daoCut.Cmp(ideal) > 0 || daoCut.Cmp(lo) < 0 || daoCut.Sign() < 0 {
-			c.Violation("C26/blockReward/dao-cut-not-proportional", "%s: DAO received %s, expected floor(fees x %d/%d) = %s (or one less)", what, daoCut, p.dao, p.dao+p.prop, ideal)
+		if p.dao+p.prop > 0 { // (0/0 with fees: no documented policy; only conservation is checked below)
+			ideal := floorMulDiv(fees, p.dao, p.dao+p.prop)
+			lo := new(big.Int).Sub(ideal, b64(1))
+			// the implementation rounds dao/(dao+proposer) to 18 decimals first: the cut may be one below the exact floor
+			if daoCut.Cmp(ideal) > 0 || daoCut.Cmp(lo) < 0 || daoCut.Sign() < 0 {
+				c.Violation("C26/blockReward/dao-cut-not-proportional", "%s: DAO received %s, expected floor(fees x %d/%d) = %s (or one less)", what, daoCut, p.dao, p.dao+p.prop, ideal)
+			}
+			if new(big.Int).Mod(new(big.Int).Mul(fees, b64(p.dao)), b64(p.dao+p.prop)).Sign() != 0 {
+				c.Label("dao-cut-truncated")
+				c.NonTrivial()
+			}
 		}
-		if new(big.Int).Mod(new(big.Int).Mul(fees, b64(p.dao)), b64(p.dao+p.prop)).Sign() != 0 {
-			c.Label("dao-cut-truncated")
-			c.NonTrivial()
+		if daoCut.Sign() < 0 || daoCut.Cmp(fees) > 0 {
+			c.Violation("C26/blockReward/dao-cut-out-of-range", "%s: DAO balance changed by %s", what, daoCut)
 		}
 		propCut := new(big.Int).Sub(fees, daoCut)
 		add(exp, r.dao, daoCut)
